@@ -61,7 +61,12 @@ func (db *LeveldbPermanent) Clean() error {
 		return err
 	}
 
-	r := leveldbutil.BytesPrefix(pst.Prefix())
+	prefix := pst.Prefix()
+	if prefix == nil { // NOTE nil prefix covers all the prefixes
+		return storage.ErrClosed.WithStack()
+	}
+
+	r := leveldbutil.BytesPrefix(prefix)
 
 	if _, err := leveldbstorage.BatchRemove(pst.Storage, r, 333); err != nil { //nolint:mnd //...
 		return errors.WithMessage(err, "clean leveldb PermanentDatabase")
